@@ -40,9 +40,90 @@ class C12(Prop):
         # replayed on the real BehaviorSubject<_, SubjectThreads> through hook H2
         from ..case import Case
         out.append(Case("behaviorrace", "threads", [], [["race"]], {"kind": "race-replay"}))
+        # two REAL threads at lock granularity on one BehaviorSubject<_, SubjectThreads> (suite `coop`, field
+        # `behavior`): producer vs producer, producer vs subscribe, producer vs peek, terminal vs producer — for every
+        # preemption point of the first thread; then peek, a late subscriber, one more item, peek
+        def em(n):
+            return ["emit", "0", n]
+        pairs = [(em(["n", "1"]), em(["n", "2"])), (em(["n", "1"]), ["sub"]), (["sub"], em(["n", "1"])),
+                 (em(["n", "1"]), ["peek"]), (em("c"), em(["n", "2"])), (em(["n", "1"]), em(["e", "3"])),
+                 (em(["e", "3"]), ["sub"])]
+        for pre in ([], [em(["n", "7"])]):
+            for a, b in pairs:
+                for k in range(0, 8):
+                    evs = [["sub"]] + pre + [["par", str(k), a, b], ["peek"], ["sub"], em(["n", "9"]), ["peek"]]
+                    out.append(Case("coop", "threads", [("behavior", ["0"]), ("pipe", [["hot", "0"]])], evs,
+                                    {"kind": "coop-behavior"}))
         return out
 
+    def compare_from(self, case):
+        return len(case.events) if case.suite == "coop" else 0
+
+    @staticmethod
+    def coop_oracle(case, lines):
+        """On the implementation's own lines.  Tokens: `<probe>:<notif>` deliveries, `P<v>` peek answers."""
+        logs = {}           # probe -> delivered notifications
+        joined_at = {}      # probe -> number of items emitted before it joined (sequential joins only)
+        emitted = []        # items passed to next, in script order (par: both)
+        dead = False
+        nprobe = 0
+        last_peek = None
+        for k, ev in enumerate(case.events):
+            b = lines.get(k)
+            if b is None:
+                continue
+            for w in ("PANIC", "DEADLOCK", "HANG", "RELOCK"):
+                if b.startswith(w):
+                    return {"kind": w.lower(), "event": k, "detail": f"{b} at {ev}"}
+            toks = [t for t in b[2:].split(" ")[0].split(";") if t] if b.startswith("o=") else []
+            ops = [ev[2], ev[3]] if ev[0] == "par" else [ev]
+            subs_here = [o for o in ops if o[0] == "sub"]
+            new_items = [o[2][1] for o in ops if o[0] == "emit" and isinstance(o[2], list) and o[2][0] == "n"]
+            term_here = any(o[0] == "emit" and (o[2] == "c" or (isinstance(o[2], list) and o[2][0] == "e")) for o in ops)
+            for _ in subs_here:
+                joined_at[nprobe] = (len(emitted), ev[0] == "par")
+                nprobe += 1
+            for t in toks:
+                if t[0] == "P":
+                    last_peek = t[1:]
+                    continue
+                pr, _, n = t.partition(":")
+                logs.setdefault(int(pr), []).append(n)
+            if ev[0] == "sub" and not dead and last_peek is not None:
+                # a subscriber joining at a quiet moment is greeted with the current value
+                pr = nprobe - 1
+                if logs.get(pr, [None])[0] != "N" + last_peek:
+                    return {"kind": "greeting-not-latest", "event": k,
+                            "detail": f"subscriber {pr} greeted with {logs.get(pr)}, peek said {last_peek}"}
+            if not dead:
+                emitted += new_items
+            if ev[0] == "par" and len(new_items) == 2 and not term_here and not dead:
+                # two producers: the value a late subscriber will get must be the one delivered last
+                nxt = lines.get(k + 1, "")
+                pk = nxt[3:].split(" ")[0] if nxt.startswith("o=P") else None
+                seen0 = [x for x in logs.get(0, []) if x.startswith("N")]
+                if pk is not None and seen0 and seen0[-1] != "N" + pk and set(seen0[-2:]) == {"N" + i for i in new_items}:
+                    return {"kind": "latest-not-last-delivered", "event": k,
+                            "detail": f"deliveries {seen0}, most recent value {pk}"}
+            if term_here:
+                dead_after = True
+            else:
+                dead_after = dead
+            # probe 0 was there from the start: every item emitted while the subject was alive reaches it once
+            if not term_here and not dead:
+                seen0 = [x[1:] for x in logs.get(0, []) if x.startswith("N")][1:]      # without the greeting
+                for it in emitted:
+                    if seen0.count(it) == 0:
+                        return {"kind": "item-lost", "event": k,
+                                "detail": f"item {it} was passed to next() and never delivered to the subscriber (saw {seen0})"}
+                    if seen0.count(it) > 1:
+                        return {"kind": "duplicate", "event": k, "detail": f"item {it} delivered {seen0.count(it)} times"}
+            dead = dead_after
+        return None
+
     def oracle(self, case, lines, model_lines=None):
+        if case.suite == "coop":
+            return self.coop_oracle(case, lines)
         if case.suite == "behaviorrace":
             for k in range(len(case.events)):
                 b = lines.get(k, "")
@@ -57,13 +138,15 @@ class C12(Prop):
         return sg.check_history(case, lines, behavior=True)
 
     def nontrivial(self, case, lines):
+        if case.suite == "coop":
+            return any(":" in b for b in lines.values())
         return any(not b.startswith("o= ") for b in lines.values())
 
     def signature(self, case, failure):
         return f"{failure['kind']}|{case.suite}|{case.flavor}"
 
     def shrink_candidates(self, case):
-        return [] if case.suite == "behaviorrace" else sg.shrink_candidates(case)
+        return [] if case.suite in ("behaviorrace", "coop") else sg.shrink_candidates(case)
 
     def extra_coverage(self, cases, impl):
         fl = {}
